@@ -34,9 +34,9 @@ AGREE_THEOREMS = {
 
 # source-agreement leaves (DESIGN 11.7): interpreting the dumped Python source = the model, for all inputs
 PYAGREE = {
-    'C02': ['MiscFd', 'LayerSend'],
+    'C02': ['MiscFd', 'MiscFrame', 'LayerSend'],
     'C03': ['Pdu', 'MiscFc', 'LayerRx'],
-    'C04': ['LayerTxHelpers', 'LayerTx'],
+    'C04': ['LayerTxHelpers', 'LayerTx', 'LayerTxWhole'],
     'C05': ['Pdu', 'LayerRx'],
     'C06': ['Pdu', 'LayerRx'],
     'C07': ['MiscTimer'],
@@ -44,6 +44,7 @@ PYAGREE = {
     'C09': ['AddressFns', 'AddressInit', 'LayerSend'],
     'C12': ['LayerTxHelpers', 'LayerQueues', 'Exec2Bridge', 'LayerSend'],
     'C14': ['LayerQueues', 'Exec2Bridge'],
+    'C10': ['LayerProcess'],
     'C15': ['LayerTxHelpers'],
     'C16': ['AddressValidate', 'AddressInit'],
     'C17': ['LayerTxHelpers', 'LayerTx'],
@@ -51,7 +52,7 @@ PYAGREE = {
     'C20': ['AddressFns', 'SockOpts'],
 }
 # leaves that are finished and committed
-PYAGREE_READY = {'LayerTx', 'LayerRx', 'LayerSend', 'LayerTxHelpers', 'LayerQueues', 'Exec2Bridge', 'SockOpts', 'AddressFns', 'AddressValidate', 'AddressInit', 'Pdu', 'MiscFd', 'MiscFc', 'MiscTimer'}
+PYAGREE_READY = {'MiscFrame', 'LayerProcess', 'LayerTx', 'LayerRx', 'LayerSend', 'LayerTxHelpers', 'LayerQueues', 'Exec2Bridge', 'SockOpts', 'AddressFns', 'AddressValidate', 'AddressInit', 'Pdu', 'MiscFd', 'MiscFc', 'MiscTimer'}
 
 
 def pyagree_theorems(mod):
